@@ -81,6 +81,16 @@ r = append(r, string(e.err), string(e.err.New("n")))
 acc = append(acc, len(r))
 if len(acc) > 0 { throw e.box.rerr }
 """,
+# Go modules whose value is bytes, an array, a sync map (a host Importable): changed in place, private per VM
+b"""global(inp, acc)
+cb := import("cbytes")
+ca := import("carr")
+cs := import("csm")
+before := [cb[0], ca[0], ca[1][0], cs.k, len(cs.inner)]
+for i := 0; i < 50; i++ { cb[0] += 1; ca[0] += 1; ca[1][0] += 1; cs.k += 1; cs.inner[string(i)] = i }
+acc = append(acc, cb[0])
+return [before, cb[0], ca[0], ca[1][0], cs.k, len(cs.inner), import("carr")[0]]
+""",
 # callbacks through pooled child VMs
 b"""global(inp, acc)
 s := import("strings")
